@@ -776,6 +776,30 @@ fn main() {
                 }
                 t.to_string()
             }).collect::<Vec<_>>().join(" ");
+            // replay macros: `commit_all` commits every pending migration (first pending first), `add_proxies <n> <hosts>`
+            // registers n proxies p0.. round-robin on the given number of hosts; both expand into ordinary op lines
+            if l == "commit_all" {
+                loop {
+                    let pend = Gen::pending(&w.store);
+                    if pend.is_empty() || w.panicked { break; }
+                    let (n, e, rs) = pend[0].clone();
+                    w.step(&format!("commit {} {} {} M 1", n, e, rs));
+                }
+                continue;
+            }
+            if let Some(r) = l.strip_prefix("add_proxies ") {
+                let v: Vec<usize> = r.split(' ').filter_map(|x| x.parse().ok()).collect();
+                if let [n, hosts] = v.as_slice() {
+                    w.quiet_views = true;
+                    for i in 0..*n {
+                        let line = format!("add_proxy p{}:{} n{}:{} n{}:{} h{}", i, 6000 + i, i, 7000 + 2 * i, i, 7001 + 2 * i, i % hosts.max(&1));
+                        let toks: Vec<&str> = line.split(' ').collect();
+                        let (op, obs) = w.exec(&toks);
+                        w.emit(op, obs);
+                    }
+                }
+                continue;
+            }
             w.step(&l);
             if w.panicked { break; }
         }
@@ -791,6 +815,9 @@ fn main() {
         if args.thorough {
             run_scale_chain(&mut w, &mut g, false, 400, &[396, 368, 364]);
             run_scale_chain(&mut w, &mut g, false, 800, &[796]);
+            // scale-out through the region where source masters already hold exactly their final count (from 91 chunks on)
+            run_scale_chain(&mut w, &mut g, false, 360, &[364, 368, 372]);
+            run_scale_chain(&mut w, &mut g, false, 728, &[732, 736]);
             run_scale_chain(&mut w, &mut g, true, 200, &[196, 100, 96, 120]);
         } else {
             run_scale_chain(&mut w, &mut g, false, 64, &[60, 56, 28, 24, 8, 4, 16, 12]);
